@@ -198,6 +198,19 @@ def check_songdir(world, names, order, ignore_dup, slash, paths):
                     if dr != ("ok", (want_sm, want_ssc, want_open[1] if chosen else None)):
                         fails.append({"clause": "a directory named relative to the current directory gives different answers", "expected": [want_sm, want_ssc, want_open], "observed": dr, "spelling": rel, **tag})
                         break
+                    # ... and with the default filesystem (no filesystem= argument at all; the listing order is then the
+                    # operating system's, so only directories without duplicates have one answer)
+                    if len([n for n in names if kind_of(n)]) > 1:
+                        continue
+                    dd = outcome(lambda: (lambda d_: (ab(d_.sm_path), ab(d_.ssc_path), title_of(d_.open()) if chosen else None))(SimfileDirectory(rel, ignore_duplicate=ignore_dup)))
+                    if dd != ("ok", (want_sm, want_ssc, want_open[1] if chosen else None)):
+                        fails.append({"clause": "a directory named relative to the current directory gives different answers with the default filesystem", "expected": [want_sm, want_ssc, want_open], "observed": dd, "spelling": rel, **tag})
+                        break
+                # from inside the directory itself: "."
+                os.chdir(base)
+                dot = outcome(lambda: (lambda d_: (ab(d_.sm_path), ab(d_.ssc_path)))(SimfileDirectory(".", ignore_duplicate=ignore_dup)))
+                if len([n for n in names if kind_of(n)]) <= 1 and dot != ("ok", (want_sm, want_ssc)):
+                    fails.append({"clause": "SimfileDirectory('.') with the default filesystem gives different answers", "expected": [want_sm, want_ssc], "observed": dot, **tag})
             finally:
                 os.chdir(cwd)
         # opendir returns the same simfile and path (it never ignores duplicates)
@@ -306,6 +319,14 @@ def check_pack(world, children, order, ignore_dup, strict, slash, paths, encodin
                     if pr != ("ok", (want_paths, "Pack")):
                         fails.append({"clause": "a pack named relative to the current directory gives different answers", "expected": [want_paths, "Pack"], "observed": pr, "spelling": rel, **tag})
                         break
+                    pd = outcome(lambda: (lambda p_: (sorted(os.path.normpath(os.path.abspath(x)) for x in p_.simfile_dir_paths), p_.name))(SimfilePack(rel, ignore_duplicate=ignore_dup)))
+                    if pd != ("ok", (sorted(want_paths), "Pack")):
+                        fails.append({"clause": "a pack named relative to the current directory gives different answers with the default filesystem", "expected": [want_paths, "Pack"], "observed": pd, "spelling": rel, **tag})
+                        break
+                os.chdir(join("nat", base, "Pack"))
+                here = outcome(lambda: sorted(os.path.normpath(os.path.abspath(x)) for x in SimfilePack(".").simfile_dir_paths))
+                if here != ("ok", sorted(want_paths)):
+                    fails.append({"clause": "SimfilePack('.') with the default filesystem gives different answers", "expected": sorted(want_paths), "observed": here, **tag})
             finally:
                 os.chdir(cwd)
         got_open = drain(sp.simfiles(**kw), title_of)
